@@ -318,6 +318,21 @@ def recalc_check(cfg, nsteps, marks):
     return err, tol
 
 
+def exact_check(cfg, nsteps):
+    """integrate() with exact_finish_time=1 (full steps, synchronize, one shortened step): safe_mode 0 == safe_mode 1 to rounding"""
+    out = []
+    for safe in (1, 0):
+        sim = make(dict(cfg, safe=safe, keep=0))
+        sim.integrate(sim.t + (nsteps + 0.37) * sim.dt, exact_finish_time=1)
+        out.append((pstate(sim), sim.t, sim.dt))
+    (a, ta, da), (b_, tb, db) = out
+    if bits(ta) != bits(tb) or bits(da) != bits(db): return float("inf"), 0.0
+    err = maxdiff(a, b_, scales(cfg, a))
+    angle = abs(cfg["dt"]) * (nsteps + 1)
+    tol = 2000 * EPS * (nsteps + 1) * (1.0 + 1.5 * angle) * (10 if cfg.get("corrector", 0) >= 11 else 1)
+    return err, tol
+
+
 def eos_check(cfg, nsteps):
     cs = dict(cfg, safe=1, keep=0); cu = dict(cfg, safe=0, keep=0)
     a = run_seq(cs, [("step", nsteps)]); b = run_seq(cu, [("step", nsteps)])
@@ -419,6 +434,17 @@ def main():
         if not (err <= tol):
             fail("recalculate-coordinates-drops-half-step:whfast", "recalculating the coordinates of an unsynchronized state changes the trajectory by %.3g (tolerance %.3g)" % (err, tol),
                  {"check": "recalc", "cfg": cfg, "nsteps": n, "marks": marks})
+    for c0 in [c for c in scfgs if c["integ"] != "whfast512" and not c.get("corrector2")] * (4 if thorough else 1):
+        cfg = finish_cfg(rng, c0); n = rng.choice([1, 3, 9])
+        try:
+            err, tol = exact_check(cfg, n)
+        except Exception as e:
+            err, tol = float("inf"), 0.0
+        rep["evaluations"] += 1; keys.add(("exact-finish", label(cfg), n))
+        worst["exact"] = max(worst.get("exact", 0.0), err / tol if tol else float("inf"))
+        if not (err <= tol):
+            fail("exact-finish-differs:" + cfg["integ"], "integrate(exact_finish_time=1): safe_mode 0 and 1 differ by %.3g (tolerance %.3g)" % (err, tol),
+                 {"check": "exact", "cfg": cfg, "nsteps": n})
     for c0 in ecfgs * (12 if thorough else 3):
         cfg = finish_cfg(rng, c0); cfg["dt"] = rng.choice([0.02, 0.05]) * 2 * math.pi
         n = rng.choice([2, 8, 30])
@@ -472,6 +498,9 @@ def replay(rep):
     if ch == "sync_twice": return _safe(sync_twice, cfg, seq)
     if ch == "safe_vs_unsafe":
         err, tol, note = safe_vs_unsafe(cfg, r["nsteps"], r["keep"])
+        return None if err <= tol else "differs by %.3g (tolerance %.3g)" % (err, tol)
+    if ch == "exact":
+        err, tol = exact_check(cfg, r["nsteps"])
         return None if err <= tol else "differs by %.3g (tolerance %.3g)" % (err, tol)
     if ch == "recalc":
         err, tol = recalc_check(cfg, r["nsteps"], r["marks"])
